@@ -108,10 +108,10 @@ func (t *RecT) Run(name string, f func(testscript.T)) {
 			sub.Finished = true
 			sub.mu.Unlock()
 		}()
-		if t.style == StylePanic {
+		{
 			defer func() {
 				if e := recover(); e != nil {
-					if _, ok := e.(exitSentinel); !ok {
+					if _, ok := e.(exitSentinel); !ok || t.style != StylePanic {
 						sub.mu.Lock()
 						sub.Failed = true
 						sub.logs = append(sub.logs, fmt.Sprintf("PANIC escaped the subtest: %v", e))
